@@ -483,7 +483,7 @@ func judge(c *vlib.Check, scs []*Scenario, kids []*child, st *tlcStats) {
 	c.Set("race_reports", nrace)
 
 	// non-vacuity of the run itself
-	if os.Getenv("VERIF_REPLAY") == "" {
+	if os.Getenv("VERIF_REPLAY") == "" && c.Violations() == 0 {
 		if okByClass["sse-plain"] == 0 || okByClass["mm"] == 0 {
 			vlib.Infra("vacuous run: no sse-plain / mm stream was accepted strictly (%v)", okByClass)
 		}
